@@ -51,9 +51,10 @@ class Role:
         self.users.remove(user)
 
     def copy_from(self, role):
-        for r in role.roles:
+        # snapshots: another reader may be memoising a new name into these sets (see _matching_roles)
+        for r in list(role.roles):
             self.add_role(r)
-        for u in role.users:
+        for u in list(role.users):
             u.add_role(self)
 
     def empty(self):
@@ -72,7 +73,7 @@ class Role:
 
     def get_roles(self):
         roles = []
-        for role in self.roles:
+        for role in list(self.roles):
             roles.append(role.name)
 
         return roles
@@ -200,11 +201,11 @@ class RoleManager(RM):
 
     def get_roles(self, name, *domain):
         user = self._get_role(name)
-        return [r.name for r in user.roles]
+        return [r.name for r in list(user.roles)]
 
     def get_users(self, name, *domain):
         role = self._get_role(name)
-        return [u.name for u in role.users]
+        return [u.name for u in list(role.users)]
 
     def to_string(self):
         line = []
@@ -394,7 +395,7 @@ class ConditionalRoleManager(RoleManager, CRM):
             ):
                 return True
 
-            for next_role in role.roles:
+            for next_role in list(role.roles):
                 linked_role = self.get_next_roles(role, next_role, domains)
                 next_roles.update(set(linked_role))
 
